@@ -174,7 +174,7 @@ class PathGen:
         if kind == "iwc":
             return ["iwc"], ([chain + [x] for x in v] if isinstance(v, list) else [])
         if kind == "gwc":
-            return ["gwc"], ([chain + [c] for _, c in children(v)] if chain is not None else [])
+            return ["igwc" if rng.random() < 0.4 else "gwc"], ([chain + [c] for _, c in children(v)] if chain is not None else [])
         if kind == "rec":
             if chain is not None and isinstance(v, (dict, list)):
                 sel = [c for c in descendants(chain)]
